@@ -149,7 +149,7 @@ claim(
 claim(
     "C09",
     "typestate abstract interpretation (buffer conservation) of the scanner on all paths + structural line "
-    "accounting of the parser",
+    "accounting of the parser + guard dominance of find()-derived slice bounds in the scanner",
     "Proves, from the shape of the code on every path, the invariant concat(scanned) + ''.join(stack) == "
     "source[:i] for cst_scanner/cst_scan (push-all, no loss, no duplication, final flush, output purity; "
     "helper summary derived from add_and_clear; loop-head fixpoint; derived all-or-nothing summary of "
@@ -184,13 +184,16 @@ claim(
 claim(
     "C06",
     "constant folding of the JSON type tables; path enumeration with guard facts of the required/Optional "
-    "logic; local type inference of the top-level schema literal; separator constant agreement",
+    "logic; local type inference of the top-level schema literal; separator constant agreement; "
+    "must-be-absent typestate of constant dict keys (stale guards)",
     "Decides necessary parts: typ2json_type (a comprehension inverse, folded) maps every JSON-representable "
     "domain type to one of the seven JSON-Schema type names and json_type2typ maps it back; on every one of "
     "the paths of param2json_schema_property a property is appended to `required` exactly once when typed "
     "and not Optional and never when Optional; the top-level literal has $schema = draft 2020-12 URI, type "
     "object, properties dict, required list and a description that is a str on every path (never None); the "
-    "Literal<->pattern separator constant agrees between emitter and parser and members are sorted.",
+    "Literal<->pattern separator constant agrees between emitter and parser and members are sorted; no test in "
+    "the property translators reads a key (e.g. `typ` after it was renamed to `type`) that is certainly absent "
+    "where it is read — such a guard is constant.",
     "NOT decided: validation of arbitrary defaults against their property schema; that parsing the emitted "
     "schema back yields the same interface (value level).",
     "DESIGN.md §2 C06",
@@ -206,7 +209,8 @@ claim(
     "call equal those the recognisers test; node classes built by param2ast are handled by the class parser; "
     "the six interface-carrying add_argument keywords are written and read under the same names; the "
     "reader's Optional decision depends only on what the writer encodes; no parameter default is tested by "
-    "truthiness (0 / False / '' are values).",
+    "truthiness, directly or through filter(None, ...) over keyword values (0 / False / '' are values); a writer "
+    "that escapes characters (.replace(A, B)) has a reader that un-escapes them.",
     "NOT decided: equality of the re-parsed interface for all parameter lists; nothing about types, "
     "descriptions or default values (value level). One symbol-wide exemption of the truthiness rule "
     "(function.emit's return default is code text).",
@@ -217,13 +221,15 @@ claim(
     "C05",
     "constant folding of the column type tables (incl. the cross-module import-time update); Column keyword "
     "vocabulary comparison; must-pass-through of ensure_has_primary_key on def-use chains; guard-fact "
-    "dominance and arm exclusivity of the primary-key stores; return-path funnel of the parsers",
+    "dominance and arm exclusivity of the primary-key stores; return-path funnel of the parsers; conditions "
+    "on the way to the Optional-wrapping store; must-be-absent typestate of constant dict keys",
     "Decides necessary parts: the type tables are mutually inverse on {int, float, str, bool, dict}; every "
     "Column keyword the emitters can write is read and removed by column_call_to_param; every column-emission "
     "site iterates ensure_has_primary_key(...).items() (at least one PK); each store introducing a PK marker "
     "is dominated by the absence test and the stores are mutually exclusive (at most one more than the input "
     "had); the hybrid and class parsers return exactly the table parser's result on the class-to-table "
-    "normal form, so the three variants cannot disagree on parsing.",
+    "normal form, so the three variants cannot disagree on parsing; the Column reader wraps a type in Optional "
+    "depending on `nullable` only (what the emitter encodes); no guard reads a key that was translated away.",
     "NOT decided: round-trip equality for all column lists (names, order, defaults, descriptions) — value level.",
     "DESIGN.md §2 C05",
 )
@@ -258,7 +264,9 @@ claim(
     "type can never be synchronised); the truncating write of an existing target is dominated by `not "
     "cmp_ast(...)` and `rewrite_at_query.replaced` (second run = no write) and creation writes by the file / "
     "node being absent; every write reachable from ground_truth goes to the loop's target filename through "
-    "cdd.shared.emit.file.file, the truth file is opened read-only; --truth choices are table keys.",
+    "cdd.shared.emit.file.file, the truth file is opened read-only; every listed (kind, file) pair reaches "
+    "_conform_filename (no skip that ignores the kind); nothing reachable from ground_truth memoises or keeps "
+    "module state; --truth choices are table keys.",
     "NOT decided: equivalence of the re-parsed interface with the truth; idempotence of black (value level).",
     "DESIGN.md §2 C12",
 )
@@ -272,7 +280,8 @@ claim(
     "site of RewriteAtQuery is dominated by `not self.replaced` and raises the flag (exactly one location is "
     "replaced); every subscript of `.defaults` in the package uses a default index (argument index corrected "
     "by len(defaults) - len(args)), the belief encoded by function.parse's left padding — parameter/default "
-    "alignment is preserved.",
+    "alignment is preserved; nothing reachable from sync_properties memoises or keeps module-level state (the value "
+    "written is the input's current value).",
     "NOT decided: node-by-node equality of the rest of the output AST (value level).",
     "DESIGN.md §2 C13",
 )
@@ -282,8 +291,9 @@ claim(
     "position of the single write relative to package calls; index/guard analysis of every CST-list "
     "mutation; inventory of AST attribute stores in DocTrans; ast.arguments field coverage of header "
     "re-rendering",
-    "Decides necessary parts: doctrans() has one write, it is last, and nothing in the package runs once the "
-    "file is truncated (so a failing conversion leaves the file byte-identical); every mutation of the CST "
+    "Decides necessary parts: doctrans() has one write, it is last, it opens the file in a truncating text mode "
+    "and uses the handle for exactly one write() of the plain concatenation of the CST nodes' values, and nothing "
+    "in the package runs once the file is truncated (so a failing conversion leaves the file byte-identical); every mutation of the CST "
     "list is at cst_idx (the def/class header located by find_cst_at_ast) or cst_idx+1, deletion/overwrite "
     "there only when that node is an existing docstring and insertion only when it is not (with C09: every "
     "other line is byte-identical); DocTrans assigns only annotations, type comments, returns, visited bodies "
